@@ -67,11 +67,12 @@ def run(pid, tier, rep):
     rep.add_mc("MC_Stream", st)
     # 2. spec -> impl: environment schedules enumerated by TLC, executed on the real DataStreams pair, traces validated
     flows = [("cli-uni", '"cli"', 2, 2, 3), ("srv-uni", '"srv"', 3, 100, 2), ("cli-bi", '"cli"', 0, 1, 100), ("srv-bi", '"srv"', 1, 100, 100)]
-    for name, side, sid, win, cwin in flows:
+    for fi, (name, side, sid, win, cwin) in enumerate(flows):
+        depth = (6 if fi == 0 else 5) if quick else 7
         beh = os.path.join(wd, "beh_gen_%s.ndjson" % name)
         trace = os.path.join(wd, "trace_gen_%s.ndjson" % name)
         g = vlib.tlc_gen(pid, "Gen_Stream", GEN_CFG, {"MaxLen": 3, "MaxNet": 2, "S": side, "SID": sid, "Win": win, "CWin": cwin,
-                                                       "Depth": 5 if quick else 7}, beh)
+                                                       "Depth": depth}, beh)
         rep.add_mc("Gen_Stream/" + name, g)
         vlib.vh(["streams-replay", beh, trace])
         validate(rep, pid, "tlc-schedules/" + name, trace)
